@@ -52,9 +52,41 @@ func VH_C04_registration() {
 			vrtAssert(!replyTo[i].Equals(replyTo[j]), "reply-addresses-distinct")
 		}
 	}
-	mode := vrtChoose(3)
+	mode := vrtChoose(4)
 	done := make([]bool, k)
 	switch mode {
+	case 3: // the asker dies, its name is reused, and late replies to the old requests arrive
+		w.root.Kill(asker.ref, false, "x")
+		w.run(200, "asker-dies")
+		for i := 0; i < k; i++ {
+			done[i] = true
+		}
+		asker2 := w.spawn(w.root, "asker", vhLogged("asker2"))
+		old := append([]vivid.ActorRef{}, replyTo...)
+		var futs2 []*future.Future[vivid.Message]
+		for i := 0; i < k; i++ {
+			futs2 = append(futs2, asker2.Ask(t.ref, &vhUserMsg{N: 50 + i}, time.Hour).(*future.Future[vivid.Message]))
+		}
+		w.run(100, "asks-delivered")
+		vrtAssert(len(replyTo) == 2*k, "each-ask-delivered-once")
+		for i := 0; i < k; i++ {
+			for j := 0; j < k; j++ {
+				vrtAssert(!old[i].Equals(replyTo[k+j]), "reply-address-never-reused-by-a-later-request")
+			}
+			t.Tell(old[i], &vhUserMsg{N: 900 + i}) // late reply to a request whose asker is gone
+		}
+		w.run(100, "late-replies")
+		for i := 0; i < k; i++ {
+			vrtAssert(!future.VrtIsClosed(futs2[i]), "late-reply-never-completes-another-request")
+		}
+		for i := 0; i < k; i++ {
+			t.Tell(replyTo[k+i], &vhUserMsg{N: 200 + i})
+			w.run(50, "reply")
+			m, err := futs2[i].Result()
+			u, ok := m.(*vhUserMsg)
+			vrtAssert(err == nil && ok && u.N == 200+i, "reply-reaches-own-future")
+		}
+		vrtReach("name-reused")
 	case 0: // replies in a symbolic order; every reply reaches its own future only
 		for n := 0; n < k; n++ {
 			i := vrtChoose(k)
@@ -108,4 +140,49 @@ func VH_C04_registration() {
 	vrtAssert(vhFutureEntries(w) == 0, "no-registration-after-completion")
 	_, has := w.sys.futureAgents[asker.ref.GetPath()]
 	vrtAssert(!has, "per-asker-table-removed-when-empty")
+}
+
+// VH_C04_timeout: an Ask with an arbitrary timeout value T (any int64 in a
+// range around zero) that is never answered: against the virtual clock the
+// future is still pending strictly before T and completes with the timeout
+// error once T has elapsed; a non-positive per-call timeout must not turn
+// the Ask into one that can never complete (Result/Wait never block beyond
+// reply, timeout or death).
+func VH_C04_timeout() {
+	w := vhNewWorld()
+	t := w.spawn(w.root, "t", vhLogged("t")) // never replies
+	asker := w.spawn(w.root, "asker", vhLogged("asker"))
+	const ms = int64(time.Millisecond)
+	T := vrtInt64()
+	vrtAssume(T >= -50*ms && T <= 200*ms)
+	def := asker.options.DefaultAskTimeout
+	vrtAssert(def > 0, "default-ask-timeout-is-positive")
+	fut := asker.Ask(t.ref, &vhUserMsg{N: 1}, time.Duration(T)).(*future.Future[vivid.Message])
+	w.run(50, "ask-delivered")
+	isDone := func() bool { return future.VrtIsClosed(fut) }
+	eff := T // the timeout in effect
+	if T <= 0 {
+		eff = int64(def)
+		vrtReach("non-positive-timeout")
+	} else {
+		vrtReach("positive-timeout")
+	}
+	if eff > 1 {
+		// strictly before the timeout nothing has happened
+		d := vrtInt64()
+		vrtAssume(d >= 0 && d < eff)
+		vrtAdvance(time.Duration(d))
+		vrtYield()
+		vrtAssert(!isDone(), "no-timeout-before-its-time")
+		vrtAdvance(time.Duration(eff - d))
+	} else {
+		vrtAdvance(time.Duration(eff))
+	}
+	vrtYield()
+	vrtAssert(isDone(), "unanswered-ask-completes-at-its-timeout")
+	if isDone() {
+		_, err := fut.Result()
+		vrtAssert(errors.Is(err, vivid.ErrorFutureTimeout), "timeout-completes-with-timeout-error")
+	}
+	vrtAssert(vhFutureEntries(w) == 0, "no-registration-after-completion")
 }
